@@ -281,6 +281,8 @@ def _child(case: dict, out_path: str):
     try:
         if case.get("objects"):
             res.update(_run_objects(TupimageTerminal, drv, case, d))
+        elif case.get("kept"):
+            res.update(_run_kept(TupimageTerminal, drv, case, d))
         else:
             term = _make_terminal(TupimageTerminal, case, d)
             fd = run_history(drv, case, terminal=term)
@@ -369,6 +371,101 @@ def _run_objects(TupimageTerminal, drv, case: dict, d: str) -> dict:
             except Exception:          # noqa: BLE001
                 pass
     return out
+
+
+def _run_kept(TupimageTerminal, drv, case: dict, d: str) -> dict:
+    """KEPT ImageInstance objects on one terminal with a configured (mostly tiny) subspace: an instance is obtained, its id is
+    then taken away (deleted, force-bound to something else, or recycled by further requests), and the instance is used again
+    through upload() / upload_and_display().  Whatever id the library works with afterwards was handed out by a request on this
+    terminal, so it must be a member of the terminal's space and subspace (Spec.member) — unless the caller forced the id."""
+    from PIL import Image
+    os.environ["TUPIMAGE_UPLOAD_METHOD"] = "direct"        # no temporary files: nothing on the other side consumes them
+    import fcntl, struct, termios
+    fcntl.ioctl(0, termios.TIOCSWINSZ, struct.pack("HHHH", 24, 80, 640, 384))     # the child's pty: an 80x24 window of 8x16 cells
+    term = _make_terminal(TupimageTerminal, case, d)
+    (cb, u3), (b, e) = case["sp"], case["su"]
+    out = {"mismatches": [], "violations": [], "stats": {}}
+
+    def count(k):
+        out["stats"][k] = out["stats"].get(k, 0) + 1
+
+    def judge(idx, step, iid, what):
+        count("ids-judged-kept-instance")
+        r = drv.ask(f"spec_member {cb} {1 if u3 else 0} {b} {e} {iid}")
+        if r not in ("1", "0"):
+            raise RuntimeError(f"driver answered {r!r} to spec_member")
+        if r == "0":
+            out["violations"].append(("id-not-member-of-requested-subspace", f"{idx}:{step[0]}",
+                                      {"id": iid, "space": [cb, u3], "subspace": [b, e], "how": what, "step": step}))
+
+    def img(k):
+        im_ = Image.new("RGB", (3, 2))
+        im_.putdata([((k * 7 + j) % 256, (k >> 8) % 256, j) for j in range(6)])
+        return im_
+
+    insts: dict = {}
+    forced: set = set()
+    try:
+        for idx, step in enumerate(case["steps"]):
+            op = step[0]
+            count("kept:" + op)
+            try:
+                if op == "assign":
+                    insts[step[1]] = term.assign_id(img(step[2]))
+                    judge(idx, step, insts[step[1]].id, "assign_id")
+                elif op == "force":       # the caller picks the id: not judged, and neither is later use of that instance
+                    insts[step[1]] = term.assign_id(img(step[2]), force_id=step[3])
+                    forced.add(step[1])
+                elif op == "del" and step[1] in insts:
+                    term.id_manager.del_id(insts[step[1]].id)
+                elif op == "set" and step[1] in insts:
+                    term.id_manager.set_id(insts[step[1]].id, step[2])
+                elif op == "fill":
+                    for j in range(step[1]):
+                        r = term.assign_id(img(10_000 + 100 * idx + j))
+                        judge(idx, step, r.id, "assign_id")
+                elif op == "upload" and step[1] in insts:
+                    r = term.upload(insts[step[1]])
+                    if step[1] not in forced:
+                        judge(idx, step, r.id, "upload(kept instance) returned")
+                        judge(idx, step, insts[step[1]].id, "kept instance after upload()")
+                elif op == "display" and step[1] in insts:
+                    ph = term.upload_and_display(insts[step[1]])
+                    if step[1] not in forced:
+                        judge(idx, step, ph.image_id, "upload_and_display(kept instance) placeholder")
+            except (ValueError, RuntimeError, FileNotFoundError) as ex:
+                count("kept-exc:" + type(ex).__name__ + ":" + str(ex)[:60])
+    finally:
+        term.id_manager.close()
+    return out
+
+
+def kept_history(rng, sp, su, max_ids) -> dict:
+    names = [f"i{j}" for j in range(rng.randint(1, 3))]
+    steps = []
+    k = 0
+    for nm in names:
+        k += 1
+        steps.append(["assign", nm, k])
+    for _ in range(rng.randint(2, 6)):
+        nm = rng.choice(names)
+        r = rng.random()
+        if r < 0.3:
+            steps.append(["del", nm])
+        elif r < 0.55:
+            steps.append(["set", nm, f"other-{rng.randrange(1000)}"])
+        elif r < 0.8:
+            steps.append(["fill", rng.choice([1, 2, 3, 6])])
+        else:
+            k += 1
+            steps.append(["assign", nm + "b", k + 50])
+            names.append(nm + "b")
+        steps.append([rng.choice(["upload", "upload", "display"]), rng.choice(names)])
+    for nm in names:
+        steps.append([rng.choice(["upload", "display"]), nm])
+    tc = {"via": rng.choice(CFG_VIAS), "id_space": _space_form(rng, sp, allow_int=False), "id_subspace": _sub_form(rng, su)}
+    return {"via": "terminal", "kept": True, "name": "kept-instance", "sp": list(sp), "su": list(su), "max_ids": max_ids, "seed": rng.randrange(1 << 30),
+            "tconfig": tc, "steps": steps, "ops": []}
 
 
 def _make_terminal(TupimageTerminal, case: dict, d: str):
@@ -474,6 +571,10 @@ def cases(ctx: Ctx):
     near = [(30, 40), (100, 200), (1, 2), (0, 2), (255, 256), (0, 256), (1, 256), (5, 9), (40, 100), (200, 256)]
     for vias in channel_sequences(rng, 10 if quick else 60):
         yield objects_history(rng, vias, near + rng.sample(subs, 4), rng.choice([1024, 1024, 2]))
+    # 0b. kept ImageInstance objects whose id was taken away, used again on a terminal with a configured subspace
+    for sp in SPACES:
+        for su in rng.sample(near, 2 if quick else 6) + [rng.choice(subs)]:
+            yield kept_history(rng, sp, su, rng.choice([1024, 2, 1]))
     # 1. one request per (space, boundary subspace), both enumerable and large path, several max_ids
     for max_ids in (1024, 1, 10**6):
         for sp in SPACES:
